@@ -178,8 +178,10 @@ class Container:
         return True
 
     def __hash__(self):
-        """The hash of a container is based on its data dictionary."""
-        return hash(self._data_dictionary)
+        """The hash of a container is based on the fields in its data
+        dictionary. (It must not depend on the order in which field sets were
+        added to the container: the name of the merged data dictionary does.)"""
+        return hash(frozenset(self._data_dictionary.fields.items()))
 
     def __getattr__(self, name: str):
         """Override attribute retrieval to access pointwise and per-container
